@@ -7,7 +7,7 @@ From Coq Require Import Reals List.
 From OV.base Require Import Num.
 From OV.gen Require Import Gen_TrustRegionSPG.
 From OV.model Require Import M_C06_Vec M_C06_CG M_C01_TR M_C05_SPG M_C05_Full.
-From OV.proofs Require Import L_C06_Vec L_C01 L_C05 L_C05_Full.
+From OV.proofs Require Import L_C06_Vec L_C01 L_C05 L_C05_Full L_C05_TR L_C05_Refine L_C05_Convex.
 Import ListNotations.
 Local Open Scope R_scope.
 
@@ -89,13 +89,71 @@ Theorem C05_flag_honest_complete_model : forall (value : list R -> R) (grad : li
     @optimality R NumR xr (grad xr) bs < s_tol S /\
     (tr = [FOut (EConvergedInit xr)] \/ exists tr', tr = tr' ++ [FOut (EConverged xr)]).
 Proof. exact full_minimize_flag. Qed.
-(* NOT PROVED: the same over binary64 (y = x + z is a rounded addition: a bound can be exceeded by an ulp; L2 allows 4 ulp and
-   reports the worst excess); the trust-region half of "feasible" (|x+z - x| <= trSize) for the SPG iterates: project_onto_tr
-   itself is inside the radius for every root-finder answer since the repair of F15 (C05_project_tr_in_both); the remaining step
-   (convexity of the ball along z += alpha*s, and the Cauchy point's cut-back) is not attempted.
+(* "EVERY ITERATE OF THE WHOLE SOLVER IS IN THE TRUST REGION" -- the other half of feasibility, for the same COMPLETE model.
+   proofs/L_C05_TR.v tr_walk c D tr walks along the trace with c = the current iterate (the start x0, then the point of the last
+   AcceptedAt event) and D = the radius announced by the last FIter event (FIter x trSize = the (x, trSize) handed to
+   find_generalized_cauchy_point / solve_spg_subproblem by that outer iteration, compared with the implementation event by event):
+     - every FIter announces the CURRENT iterate as its centre and a radius >= 0,
+     - every FSpg point (the generalized Cauchy point x + cauchyStep and every SPG iterate x + z) has |p - c|^2 <= D^2,
+     - every trial point y = x + s has |y - c|^2 <= D^2.
+   For arbitrary length-preserving value / gradient / Hessian-vector oracles, EVERY sequence of root-finder answers (project_onto_tr
+   is inside the radius whatever brentq returns since repo fix F15: C05_project_tr_in_both), every feasible start.
+   Hypotheses on the settings, each one needed: tr_size >= 0, t1 >= 0, t2 >= 0 (the radius is only ever multiplied by t1 / t2 or
+   reset to tr_size) and cauchy_point_max_line_search_iters >= 1 (with a cap of 0 the trust-region cut-back loop of the Cauchy search
+   exits after ONE cut-back without raising -- `i == maxLineSearchIters` is 1 == 0 -- and returns a step that can be outside the
+   radius: f = -x + x^2/200, x0 = 0, no bounds, tr_size = 1 gives the Cauchy step 20).
+   Mechanism: the cut-back loop ends with s.s <= trSize^2 or raises; z += alpha*s with s = project_onto_tr(..) - (x+z) and
+   alpha in [0,1] gives |z'|^2 <= (1-alpha)|z|^2 + alpha|P - x|^2 (convexity of the square, spg_update_ball). *)
+Theorem C05_every_iterate_in_trust_region : forall (value : list R -> R) (grad : list R -> list R) (hessvec : list R -> list R -> list R)
+    (brent : nat -> R) (bs : list (@bound R)) (S : settings R) (G : spg_settings R),
+  wf_box bs ->
+  (forall x, length x = length bs -> length (grad x) = length bs) ->
+  (forall x v, length x = length bs -> length v = length bs -> length (hessvec x v) = length bs) ->
+  0 <= s_tr_size S -> 0 <= s_t1 S -> 0 <= s_t2 S -> (1 <= g_max_ls G)%nat ->
+  forall x0, in_box bs x0 ->
+  forall D0, tr_walk x0 D0 (snd (@full_minimize R NumR value grad hessvec brent bs S G x0)).
+Proof. exact full_minimize_in_tr. Qed.
+(* the two vector facts behind it, stated on their own *)
+Theorem C05_spg_update_stays_in_ball : forall x z p a, length z = length x -> length p = length x -> 0 <= a <= 1 ->
+  raxpy z a (rsub p (radd x z)) ⋅ raxpy z a (rsub p (radd x z)) <= (1 - a) * (z ⋅ z) + a * (rsub p x ⋅ rsub p x).
+Proof. exact spg_update_ball. Qed.
+Theorem C05_cauchy_step_in_trust_region : forall (bs : list (@bound R)) (G : spg_settings R), (1 <= g_max_ls G)%nat ->
+  forall x g Hv tr alpha fwd n1 n2 a s,
+  @cauchy_point R NumR bs G x g Hv tr alpha = CPOk fwd n1 n2 a s -> s ⋅ s <= tr * tr.
+Proof. exact cauchy_point_in_tr. Qed.
+(* the cap hypothesis is needed: with cauchy_point_max_line_search_iters = 0 the Cauchy search returns a step outside the radius
+   (model Hessian 1/100, g = -1, x = 0, unbounded, first step length 100, trSize = 1: step 20; the implementation does the same) *)
+Theorem C05_cauchy_step_cap_zero_refuted :
+  exists (G : spg_settings R) x g Hv tr alpha fwd n1 n2 a s,
+    g_max_ls G = O /\ @cauchy_point R NumR [(None, None)] G x g Hv tr alpha = CPOk fwd n1 n2 a s /\ tr * tr < s ⋅ s.
+Proof. exact cauchy_cap_zero_outside. Qed.
+(* NOT PROVED: both halves over binary64 (y = x + z is a rounded addition: a bound can be exceeded by an ulp, the radius by a few
+   ulp of |x|; L2 allows 4 ulp for the box and trSize*1e-9 + 8 ulp(|x|) sqrt(n) for the radius and reports the worst excess).
    Runs that end in the documented RuntimeError of the Cauchy search or outside the model's range (max_spg_iters = 0:
-   NameError in python; cauchy_point_max_line_search_iters = 0) have result None: the theorem then only speaks about the
-   points formed before. *)
+   NameError in python; cauchy_point_max_line_search_iters = 0)
+   have result None: the theorems then speak about the points formed before. *)
+
+(* REFINEMENT: every run of the complete model that returns is a run of the proposal-oracle model bc_minimize (below) for the
+   proposal sequence run_proposals that the complete run itself computes (proofs/L_C05_Refine.v: the (s, modelObjective,
+   stepType == 'boundary', spgIters) of each outer iteration, by index): same returned point, same flag, and the trace of the
+   proposal-oracle run is exactly the callback / update_precond / return events (outs) of the complete trace.  So every theorem
+   proved about bc_minimize for ARBITRARY proposals holds for the complete solver. *)
+Theorem C05_complete_run_is_a_proposal_oracle_run : forall (value : list R -> R) (grad : list R -> list R)
+    (hessvec : list R -> list R -> list R) (brent : nat -> R) (bs : list (@bound R)) (S : settings R) (G : spg_settings R) x0 xr flag tr,
+  @full_minimize R NumR value grad hessvec brent bs S G x0 = (Some (xr, flag), tr) ->
+  @bc_minimize R NumR value grad bs (run_proposals value grad hessvec brent bs S G x0) S x0 = (xr, flag, outs tr).
+Proof. exact full_minimize_refines. Qed.
+(* ... transferred: descent on accepted iterates (default mode, eta1 >= 0) and returns-the-last-iterate for EVERY run of the
+   complete model -- no hypothesis on the oracles, on the root finder or on the settings; runs that end in the RuntimeError
+   included (such a run is the proposal-oracle run whose iteration cap is the number of completed outer iterations). *)
+Theorem C05_trace_properties_complete_model : forall (value : list R -> R) (grad : list R -> list R)
+    (hessvec : list R -> list R -> list R) (brent : nat -> R) (bs : list (@bound R)) (S : settings R) (G : spg_settings R) x0,
+  let '(res, tr) := @full_minimize R NumR value grad hessvec brent bs S G x0 in
+  accepts_ok value (outs tr) /\
+  (s_use_incremental S = false -> 0 <= s_eta1 S -> chain (value x0) (accept_vals (outs tr))) /\
+  (forall xr, res = Some (xr, false) ->
+     xr = cur x0 (outs tr) /\ exists tr', outs tr = tr' ++ [ETooSmall xr] \/ outs tr = tr' ++ [EMaxIters xr]).
+Proof. exact full_minimize_trace. Qed.
 
 (* outer loop, ARBITRARY value/gradient oracles and ARBITRARY step proposals: descent on accepted iterates (default mode,
    eta1 >= 0), flag = true only at a ConvergedAt event at the returned point whose projected-gradient measure is < tol,
@@ -122,6 +180,44 @@ Theorem C05_convex_pg_zero_is_min : forall (f : list R -> R) (gradf : list R -> 
   forall y, in_box bs y -> f x <= f y.
 Proof. exact convex_stationary_is_minimizer. Qed.
 
+(* the same with a NON-ZERO measure (what the solver actually certifies): gradient strongly monotone (mu) and Lipschitz (L) between
+   x and the constrained minimiser xs (first-order condition g(xs).(y - xs) >= 0 on the box) =>
+   mu |x - xs| <= (1 + L) |P(x - g(x)) - x| *)
+Theorem C05_convex_pg_small_near_min : forall bs (x xs gx gs : list R) mu L,
+  wf_box bs -> in_box bs x -> in_box bs xs -> length gx = length bs -> length gs = length bs ->
+  0 < mu -> 0 <= L ->
+  (forall y, in_box bs y -> 0 <= gs ⋅ rsub y xs) ->
+  mu * (rsub x xs ⋅ rsub x xs) <= rsub gx gs ⋅ rsub x xs ->
+  rsub gx gs ⋅ rsub gx gs <= L * L * (rsub x xs ⋅ rsub x xs) ->
+  mu * sqrt (rsub x xs ⋅ rsub x xs) <= (1 + L) * @optimality R NumR x gx bs.
+Proof. exact pg_small_near_minimizer. Qed.
+(* "for convex problems the point returned with success is the bound-constrained minimizer", quantitatively, for the COMPLETE model:
+   whenever the complete solver reports success on a problem whose gradient is mu-strongly monotone and L-Lipschitz towards the
+   constrained minimiser xs, the returned point is within (1 + L)/mu * tol of xs (every oracle sequence of the root finder) *)
+Theorem C05_success_is_near_constrained_minimizer : forall (value : list R -> R) (grad : list R -> list R)
+    (hessvec : list R -> list R -> list R) (brent : nat -> R) (bs : list (@bound R)) (S : settings R) (G : spg_settings R),
+  wf_box bs ->
+  (forall x, length x = length bs -> length (grad x) = length bs) ->
+  (forall x v, length x = length bs -> length v = length bs -> length (hessvec x v) = length bs) ->
+  forall x0, in_box bs x0 ->
+  forall xs mu L, in_box bs xs -> 0 < mu -> 0 <= L ->
+  (forall y, in_box bs y -> 0 <= grad xs ⋅ rsub y xs) ->
+  (forall x, in_box bs x -> mu * (rsub x xs ⋅ rsub x xs) <= rsub (grad x) (grad xs) ⋅ rsub x xs /\
+                            rsub (grad x) (grad xs) ⋅ rsub (grad x) (grad xs) <= L * L * (rsub x xs ⋅ rsub x xs)) ->
+  forall xr tr, @full_minimize R NumR value grad hessvec brent bs S G x0 = (Some (xr, true), tr) ->
+  mu * sqrt (rsub xr xs ⋅ rsub xr xs) < (1 + L) * s_tol S.
+Proof. exact success_near_minimizer. Qed.
+(* NOT PROVED: that the solver DOES report success on such problems (global convergence of the trust-region / SPG iteration with this
+   code's caps) -- tested only (convex-box stream: success and distance to an independent reference minimiser within this bound). *)
+
+Example C05_convex_hypotheses_nonvacuous :
+  let b : list (@bound R) := [(Some 0, None)] in let grad := (fun y : list R => y) in
+  in_box b [0] /\ 0 < 1 /\ 0 <= 1 /\
+  (forall y, in_box b y -> 0 <= grad [0] ⋅ rsub y [0]) /\
+  (forall x, in_box b x -> 1 * (rsub x [0] ⋅ rsub x [0]) <= rsub (grad x) (grad [0]) ⋅ rsub x [0] /\
+                           rsub (grad x) (grad [0]) ⋅ rsub (grad x) (grad [0]) <= 1 * 1 * (rsub x [0] ⋅ rsub x [0])).
+Proof. exact example_convex_hypotheses. Qed.
+
 Example C05_nonvacuous :
   wf_box [(Some 0, Some 1); (None, Some 2); (Some 3, Some 3); (None, None)] /\
   in_box [(Some 0, Some 1); (None, Some 2); (Some 3, Some 3); (None, None)] [1/2; -5; 3; 7].
@@ -133,10 +229,19 @@ Example C05_every_iterate_feasible_nonvacuous :
   (forall x v : list R, length x = length b -> length v = length b -> length ((fun (_ y : list R) => y) x v) = length b).
 Proof. exact example_full_hypotheses. Qed.
 
+Example C05_in_trust_region_nonvacuous :
+  (0 <= 2 /\ 0 <= 1/4 /\ 0 <= 7/4 /\ (1 <= 25)%nat) /\
+  ~ tr_walk [0] 0 [FIter [0] 1; FTrial [2]] /\ ~ tr_walk [0] 0 [FIter [1] 1] /\ ~ tr_walk [0] 0 [FIter [0] (-1)] /\
+  tr_walk [0] 0 [FIter [0] 1; FSpg [1] 0 0; FTrial [1]; FOut (EAccept [1] 0); FIter [1] 2; FTrial [3]].
+Proof. exact example_tr_hypotheses. Qed.
+
 Print Assumptions C05_project_nearest.
 Print Assumptions C05_project_tr_in_both.
 Print Assumptions C05_spg_step_feasible.
 Print Assumptions C05_every_iterate_feasible.
 Print Assumptions C05_flag_honest_complete_model.
+Print Assumptions C05_every_iterate_in_trust_region.
+Print Assumptions C05_trace_properties_complete_model.
 Print Assumptions C05_trace_properties.
 Print Assumptions C05_convex_pg_zero_is_min.
+Print Assumptions C05_success_is_near_constrained_minimizer.
